@@ -1,7 +1,7 @@
 (* C18 -- A joined in-port receives the whole sub-stream, once, in order. *)
 From Coq Require Import List Ascii String Arith Bool.
 Import ListNotations.
-From SP Require Import Skel Gen Expected Str PathLex Format WfModel.
+From SP Require Import Skel Gen Expected ExpectedCones Str PathLex Format WfModel.
 Notation length := List.length.
 
 (* T1: NewTask drains the sub-stream channel of every joined port until it is closed, before the command is formatted;
@@ -61,9 +61,20 @@ Theorem C18_example :
   = Ok (s2l "cat ../a:../d/b:/abs/c > res.txt").
 Proof. vm_compute. reflexivity. Qed.
 
+(* T1, call cones: every function of scipipe that the functions above can reach (calls and function values, interface calls
+   resolved to every implementation) is one the models were compared with -- a helper that is new to the cone, or a new call
+   of an old one, changes a list (the lists are regenerated from /repo on every run; ExpectedCones.v holds the accepted ones) *)
+Theorem C18_cone_conforms :
+  strs_eqb cone_NewTask exp_cone_NewTask
+  && strs_eqb cone_Process_createTasks exp_cone_Process_createTasks
+  && strs_eqb cone_BaseProcess_receiveOnInPorts exp_cone_BaseProcess_receiveOnInPorts
+  && strs_eqb cone_Task_writeAuditLogs exp_cone_Task_writeAuditLogs = true.
+Proof. vm_compute. reflexivity. Qed.
+
 Print Assumptions C18_code_conforms.
 Print Assumptions C18_one_carrier.
 Print Assumptions C18_once.
 Print Assumptions C18_command.
 Print Assumptions C18_resolvable.
 Print Assumptions C18_example.
+Print Assumptions C18_cone_conforms.
